@@ -65,6 +65,8 @@ func canon(v interface{}) string {
 	return strings.Replace(string(b), " ", "\\u0020", -1)
 }
 
+var intendedPerms map[*characteristic.Characteristic]string
+
 // the fixed accessory set of the stack scenarios (ids are assigned by the library)
 func buildAccessories() []*accessory.Accessory {
 	br := accessory.NewBridge(accessory.Info{Name: "VBridge", SerialNumber: "CANARY-SERIAL-1", Manufacturer: "verif", Model: "m"})
@@ -74,33 +76,47 @@ func buildAccessories() []*accessory.Accessory {
 	// custom characteristics on an extra service of the switch: write-only string, read-only without events,
 	// read/write without events
 	svc := service.New("F0000001-0000-1000-8000-0026BB765291")
+	rePerms := characteristic.PermsRead() // taken before the other sets are built from the helpers
 	wo := characteristic.NewString("F0000002-0000-1000-8000-0026BB765291")
-	wo.Perms = []string{characteristic.PermWrite}
+	wo.Perms = characteristic.PermsWriteOnly()
 	ro := characteristic.NewInt("F0000003-0000-1000-8000-0026BB765291")
 	ro.Format = characteristic.FormatUInt8
-	ro.Perms = []string{characteristic.PermRead}
+	ro.Perms = characteristic.PermsReadOnly()
 	ro.Value = 7
 	rw := characteristic.NewString("F0000004-0000-1000-8000-0026BB765291")
-	rw.Perms = []string{characteristic.PermRead, characteristic.PermWrite}
+	rw.Perms = append(characteristic.PermsReadOnly(), characteristic.PermWrite)
 	rw.Value = "CANARY-VALUE"
 	// an unbounded 32-bit unsigned characteristic (values beyond 2^31 must survive in both directions)
 	u32 := characteristic.NewInt("F0000005-0000-1000-8000-0026BB765291")
 	u32.Format = characteristic.FormatUInt32
-	u32.Perms = []string{characteristic.PermRead, characteristic.PermWrite, characteristic.PermEvents}
+	u32.Perms = characteristic.PermsAll()
 	u32.Value = 1
+	// the permission sets are taken from the library's helper functions (and extended with append, as applications do);
+	// what the application MEANT is recorded here, for the table the model and the oracles work from
+	intendedPerms = map[*characteristic.Characteristic]string{wo.Characteristic: "w", ro.Characteristic: "r", rw.Characteristic: "rw",
+		u32.Characteristic: "rwe"}
 	svc.AddCharacteristic(wo.Characteristic)
 	svc.AddCharacteristic(ro.Characteristic)
 	svc.AddCharacteristic(rw.Characteristic)
 	svc.AddCharacteristic(u32.Characteristic)
 	// write + events but NOT readable (a "button"): subscribers are told that it changed, never its value
 	we := characteristic.NewString("F0000006-0000-1000-8000-0026BB765291")
-	we.Perms = []string{characteristic.PermWrite, characteristic.PermEvents}
+	we.Perms = append(characteristic.PermsWriteOnly(), characteristic.PermEvents)
+	intendedPerms[we.Characteristic] = "we"
 	svc.AddCharacteristic(we.Characteristic)
 	// a string anybody may read, write and observe (a configured name): its text travels inside event bodies
 	nm := characteristic.NewString("F0000007-0000-1000-8000-0026BB765291")
-	nm.Perms = []string{characteristic.PermRead, characteristic.PermWrite, characteristic.PermEvents}
+	nm.Perms = characteristic.PermsAll()
 	nm.Value = "name"
+	intendedPerms[nm.Characteristic] = "rwe"
 	svc.AddCharacteristic(nm.Characteristic)
+	// read + events through the helper PermsRead() (a sensor value)
+	re := characteristic.NewInt("F0000008-0000-1000-8000-0026BB765291")
+	re.Format = characteristic.FormatUInt8
+	re.Perms = rePerms
+	re.Value = 3
+	intendedPerms[re.Characteristic] = "re"
+	svc.AddCharacteristic(re.Characteristic)
 	sw.AddService(svc)
 	return []*accessory.Accessory{br.Accessory, lb.Accessory, th.Accessory, sw.Accessory}
 }
@@ -350,6 +366,9 @@ func runStack(id string, toks []string) (res string) {
 							case characteristic.PermEvents:
 								perms += "e"
 							}
+						}
+						if ip, ok := intendedPerms[c]; ok {
+							perms = ip
 						}
 						b := func(v interface{}) string {
 							if v == nil {
